@@ -48,6 +48,9 @@ def prune(prop):
     d = load()
     ev = json.load(open(os.path.join(V, 'evidence', prop + '.json')))
     tier = ev['tier']
+    if ev.get('violations'):
+        # hit counts are capped at the listed count when the surplus is a violation: tightening would undo an accept
+        print(f'{prop}: the run has violations - accept or fix them first, nothing pruned'); return
     hits = ev['coverage']['known_finding_hits']
     keep = []; dropped = 0; tightened = 0; untier = 0
     for k in d['findings']:
